@@ -181,7 +181,7 @@ func c14(x *mon.Ctx) {
 		binary.LittleEndian.PutUint16(q2p.Header[10:], binary.LittleEndian.Uint16(qp.Header[10:])-1)
 		q3p := qp.Clone()
 		q3p.Body[328+48*r.Intn(4)+r.Intn(48)] ^= 1 // one RTMR bit
-		q3p.Body[120] ^= 1                          // TD_ATTRIBUTES debug bit
+		q3p.Body[120] ^= 1                         // TD_ATTRIBUTES debug bit
 		rq, _ := ref.ParseQuote(q0)
 		return [][]byte{q0, q1p.Bytes(), q2p.Bytes(), q3p.Bytes()}, rq
 	}
